@@ -59,6 +59,8 @@ def cases(rng, tier, X):
             for off in list(range(0, min(size + 3, 1210), 1 if size < 200 else 37)) + [P - 1, P, P + 1, 65535]:
                 ops.append('rx 0 ' + F.qltlv(F.STATIONS[0], F.OWN, 9, 0x0e, off))
             out.append(('grid%d' % size, ops))
+    # small scope, exhaustively: every frame sequence up to length 2 (thorough: 3) over the 23-symbol alphabet of frames.alphabet()
+    out += F.small_scope(2 if tier == 'quick' else 3)
     # universal traffic (every frame type / sender / path / service / boundary value, 1..3 interfaces): this check's predicate on it
     for k in range(60 if tier == 'quick' else 6000):
         out.append(('u%d' % k, F.universal(rng)))
